@@ -671,7 +671,7 @@ fn wincons_case() -> BoxedStrategy<WinConsCase> {
         dec2(0.01, 7.0),
         dec2(0.01, 7.0),
         dec2(0.05, 0.95),
-        prop_oneof![1 => Just(None), 1 => dec2(0.02, 0.9).prop_map(Some), 1 => (20u32..900).prop_map(|v| Some(v as f32 / 1000.0))],
+        prop_oneof![2 => Just(None), 2 => dec2(0.0, 1.0).prop_map(Some), 1 => Just(Some(0.0f32)), 1 => Just(Some(1.0f32)), 2 => (0u32..1000).prop_map(|v| Some(v as f32 / 1000.0))],
         prop_oneof![6 => Just(0u8), 1 => Just(1u8), 1 => Just(2u8)],
         prop_oneof![6 => Just(0u8), 1 => Just(1u8), 1 => Just(2u8)],
         prop_oneof![9 => Just(true), 1 => Just(false)],
